@@ -194,8 +194,18 @@ fn name(i: u8) -> &'static str {
 pub struct Pieces<'a>(pub &'a [String]);
 impl std::fmt::Display for Pieces<'_> {
     fn fmt(&self, f: &mut std::fmt::Formatter<'_>) -> std::fmt::Result {
+        use std::fmt::Write;
         for p in self.0 {
-            f.write_str(p)?;
+            // a one-character piece goes through `write_char`, a number through the formatting
+            // machinery, anything else through `write_str`
+            let mut cs = p.chars();
+            match (cs.next(), cs.next()) {
+                (Some(c), None) => f.write_char(c)?,
+                _ => match p.parse::<i64>() {
+                    Ok(n) if n.to_string() == *p => write!(f, "{n}")?,
+                    _ => f.write_str(p)?,
+                },
+            }
         }
         Ok(())
     }
@@ -533,6 +543,8 @@ fn pieces_strategy() -> impl Strategy<Value = Vec<String>> {
         3 => string_strategy(),
         2 => (1usize..320, prop::sample::select(vec!['s', '"', '\u{e9}', '\n'])).prop_map(|(n, c)| std::iter::repeat(c).take(n).collect::<String>()),
         1 => Just(String::new()),
+        2 => prop::sample::select(vec!['#', '"', '\\', '\u{e9}', '\u{1F600}', '\n', 'a']).prop_map(String::from),
+        1 => any::<i64>().prop_map(|n| n.to_string()),
     ];
     prop::collection::vec(piece, 0..5)
 }
